@@ -104,3 +104,9 @@ Print Assumptions C12_rec_sloppy_refuted.
 Theorem C12_recursion_test_is_exact : gen_recursion_test_exact = true.
 Proof. exact recursion_test_is_exact. Qed.
 Print Assumptions C12_recursion_test_is_exact.
+
+(* a node that is not ready does not change the state the rest of the round (and the retry) starts from *)
+Theorem C12_failed_attempt_no_trace : forall g done n t, ready g done n = false ->
+  round g done (n :: t) = (fst (round g done t), n :: snd (round g done t)).
+Proof. exact failed_attempt_no_trace. Qed.
+Print Assumptions C12_failed_attempt_no_trace.
